@@ -1,8 +1,8 @@
 (** C03 — non-vacuity: concrete inputs that satisfy the hypotheses of every theorem of props/C03.v, and on which the
     conclusions say something (a bond really changes, a charge really moves, the additive branch is really taken, no
     ITS is really produced).  Intermediate values are top-level Definitions (no destructuring lets in statements). *)
-From Coq Require Import List NArith ZArith Bool Lia.
-From SK Require Import lib.Tok lib.LGraph model.C03_Model proof.C03_Proof proof.C03_Glue proof.C03_Backward proof.C03_ExplicitH proof.C03_ExplicitShape proof.C03_ExplicitTotal proof.C03_Expand proof.C03_Default proof.C03_Iso proof.C03_Skeleton proof.C03_StripCounts proof.C03_Wiring proof.C03_WiringCount proof.C03_PairIds proof.C03_StripExact proof.C03_StripCor proof.C03_PairIdsComplete proof.C03_DefaultBalance.
+From Coq Require Import List NArith ZArith Bool Lia Permutation.
+From SK Require Import lib.Tok lib.LGraph model.C03_Model proof.C03_Proof proof.C03_Glue proof.C03_Backward proof.C03_ExplicitH proof.C03_ExplicitShape proof.C03_ExplicitTotal proof.C03_Expand proof.C03_Default proof.C03_Iso proof.C03_Skeleton proof.C03_StripCounts proof.C03_Wiring proof.C03_WiringCount proof.C03_PairIds proof.C03_StripExact proof.C03_StripCor proof.C03_PairIdsComplete proof.C03_DefaultBalance proof.C03_DefaultEnd.
 Import ListNotations.
 Local Open Scope Z_scope.
 
@@ -278,3 +278,35 @@ Qed.
 Example ex_default_rule_dH : simple_edgesb (gedges ex_tpl_x) = true /\ sumZ dH ex_rc_s = 0 /\
   countZ (fun k => bonded eH ex_tpl_x k 2%N) [1%N; 3%N] = 1 /\ countZ (fun k => bonded eG ex_tpl_x k 2%N) [1%N; 3%N] = 1.
 Proof. vm_compute. repeat split; reflexivity. Qed.
+
+(** the template condition of the end-to-end theorems holds on ex_tpl_x (one removed hydrogen, one bond on each side) *)
+Lemma countZ_perm {A} (P : A -> bool) l l' : Permutation l l' -> countZ P l = countZ P l'.
+Proof. unfold countZ. induction 1; simpl; try (destruct (P x)); try (destruct (P y)); simpl; try lia. Qed.
+
+Lemma isH_in (tpl : its) h : is_H_i tpl h = true -> In h (node_ids tpl).
+Proof. intros H. apply has_node_in. unfold is_H_i in H. unfold has_node. destruct (label tpl h); [reflexivity|discriminate]. Qed.
+
+Example ex_tpl_condition : tpl_condition ex_tpl_x.
+Proof.
+  intros R K NR NK HR HK.
+  assert (ER : forall h, In h R <-> In h [2%N]).
+  { intros h. rewrite HR. split.
+    - intros (A & B & C). apply isH_in in A. simpl in A. destruct A as [<-|[<-|[<-|[]]]]; [vm_compute in B; discriminate|left; reflexivity|vm_compute in B; discriminate].
+    - intros [<-|[]]. vm_compute. auto. }
+  assert (EK : forall k, In k K <-> In k [1%N; 3%N]).
+  { intros k. rewrite HK. split.
+    - intros (A & B). simpl in A. destruct A as [<-|[<-|[<-|[]]]]; [left; reflexivity|vm_compute in B; discriminate|right; left; reflexivity].
+    - intros [<-|[<-|[]]]; vm_compute; auto. }
+  assert (PK : Permutation K [1%N; 3%N]).
+  { apply NoDup_Permutation; [exact NK|repeat constructor; simpl; intuition discriminate|exact EK]. }
+  split.
+  - intros h Ih. apply ER in Ih. destruct Ih as [<-|[]]. rewrite !(countZ_perm _ _ _ PK). reflexivity.
+  - rewrite (filter_ext_all (keepn R) (keepn [2%N])); [reflexivity|]. intros p. unfold keepn. f_equal.
+    destruct (mem (fst p) R) eqn:E1, (mem (fst p) [2%N]) eqn:E2; try reflexivity.
+    + apply mem_spec in E1. apply ER in E1. apply mem_spec in E1. congruence.
+    + apply mem_spec in E2. apply ER in E2. apply mem_spec in E2. congruence.
+Qed.
+
+Example ex_default_end_to_end : explicit_h ex_T_s = Some (match explicit_h ex_T_s with Some p => fst p | None => LG [] [] end, [(2%N, 3%N)]) /\
+  sumZ dQ ex_rc_s = 0.
+Proof. vm_compute. split; reflexivity. Qed.
